@@ -184,6 +184,10 @@ impl FreeList {
             return vec![];
         }
 
+        #[cfg(nomt_verif)]
+        if self.portions.len() > 1 {
+            crate::verif::probe("beatree.free_list_multi_page");
+        }
         // append the released free list pages
         to_push.extend(self.released_portions.drain(..));
 
